@@ -31,7 +31,7 @@ func qualifiedCallee(info *types.Info, c *ast.CallExpr) string {
 	if sig, ok := fn.Type().(*types.Signature); ok && sig.Recv() != nil {
 		return ""
 	}
-	return fn.Pkg().Path() + "." + fn.Name()
+	return fn.Pkg().Path() + "." + funcName(fn)
 }
 
 // qualifiedFuncValue names the package-level function an expression denotes (bytes.Compare,
@@ -56,7 +56,7 @@ func qualifiedFuncValue(info *types.Info, e ast.Expr) string {
 	}
 	if fn, ok := info.Uses[id].(*types.Func); ok && fn.Pkg() != nil {
 		if sig, ok := fn.Type().(*types.Signature); ok && sig.Recv() == nil {
-			return fn.Pkg().Path() + "." + fn.Name()
+			return fn.Pkg().Path() + "." + funcName(fn)
 		}
 	}
 	return ""
@@ -246,8 +246,8 @@ func threeWayCall(info *types.Info, e ast.Expr) (kind string, l, r ast.Expr, neg
 		if fn, isFn := info.Uses[se.Sel].(*types.Func); isFn {
 			if sig := fn.Type().(*types.Signature); sig.Recv() != nil && sig.Results().Len() == 1 {
 				if b, isB := sig.Results().At(0).Type().Underlying().(*types.Basic); isB && b.Info()&types.IsInteger != 0 {
-					kind := "method:" + fn.Name()
-					if fn.Pkg() != nil && fn.Pkg().Path() == "time" && fn.Name() == "Compare" {
+					kind := "method:" + funcName(fn)
+					if fn.Pkg() != nil && fn.Pkg().Path() == "time" && funcName(fn) == "Compare" {
 						kind = "time"
 					}
 					return kind, se.X, cl.Args[0], neg, true
@@ -293,7 +293,7 @@ func (d *sortDesc) fromLess(info *types.Info, res ast.Expr, elem func(ast.Expr) 
 	if cl, ok := res.(*ast.CallExpr); ok && len(cl.Args) == 1 {
 		if se, isSel := ast.Unparen(cl.Fun).(*ast.SelectorExpr); isSel {
 			if fn, isFn := info.Uses[se.Sel].(*types.Func); isFn && fn.Pkg() != nil && fn.Pkg().Path() == "time" {
-				switch fn.Name() {
+				switch funcName(fn) {
 				case "Before":
 					d.setPair("time", se.X, cl.Args[0], elem, false)
 				case "After":
